@@ -1111,6 +1111,7 @@ impl Sys {
                 Prop::user("b", "1"),
                 Prop::user("op", "again"),
                 Prop::user("a", ""),
+                Prop::user("b", "1"),
             ]
         };
         let form = if !tag.is_empty() { 4 } else if reason == 0 { 2 } else { 3 };
@@ -1247,6 +1248,13 @@ pub fn enrich_in(p: SPacket, tam: u16, established: bool) -> (SPacket, bool) {
             let n = payload.iter().map(|b| *b as usize).sum::<usize>() % 4;
             let (mut retain, mut topic) = (retain, topic);
             let mut est = established;
+            if dup && tam >= 2 && established && !props.iter().any(|p| p.id == P_TOPIC_ALIAS) {
+                // a repetition (DUP = 1) sent in the alias-only form: same packet identifier, other bytes
+                // in the Topic Name field - whether it is a re-delivery is decided by the identifier
+                topic = String::new();
+                props.push(Prop::u16(P_TOPIC_ALIAS, 2));
+                return (SPacket::Publish { dup, qos, retain, topic, pid, props, payload }, est);
+            }
             match n {
                 0 => retain = true,
                 1 => {
